@@ -817,7 +817,7 @@ func (ex *Exec) evCall(x *SCall, env *Env) Val {
 		}
 		h := ex.getHeap(st, "$typeof", ArrS(SInt, SInt))
 		xa := arg(0).T
-		return Val{T: And(Lt(xa, ex.getHeap(st, "$nextref", SInt)), Eq(Select(h, xa), IntLit(int64(ex.V.nameID("type:"+structName(t)))))), Ty: tyBool}
+		return Val{T: And(Gt(xa, IntLit(0)), Lt(xa, ex.getHeap(st, "$nextref", SInt)), Eq(Select(h, xa), IntLit(int64(ex.V.nameID("type:"+structName(t)))))), Ty: tyBool}
 	case "allocated":
 		a := arg(0)
 		t := a.T
